@@ -5,7 +5,7 @@
    step that can be torn (leaving a non-loadable Partial file).  Tag j of a crash point = number of the
    last checkpoint whose write was completed. *)
 From TenpyV Require Import Base.Prelude Model.Fs Proofs.FsP Gen.G_save_results Proofs.FsGenP.
-From TenpyV Require Import Model.ResumeProto Proofs.ResumeProtoP.
+From TenpyV Require Import Model.ResumeProto Proofs.ResumeProtoP Model.FixNames Proofs.FixNamesP.
 
 (* the body of Simulation.save_results, regenerated from the source, is the program of the model *)
 Theorem T18_save_results_gen : save_results_gen = save_results_prog /\
@@ -85,6 +85,27 @@ Proof. reflexivity. Qed.
 Example ex_unsafe_without_safe_write : exists j st, In (j, st) (fresh_points false 2) /\ 1 <= j /\ loadable st = None.
 Proof. exact unsafe_without_safe_write. Qed.
 
+(* fix_output_filenames (Model/FixNames.v, transcription of the name choice; `ex i` = candidate i exists, candidate 0 the
+   configured name, candidate i the `_i` copy): for EVERY set of existing files, a fresh run (not loaded from a
+   checkpoint, overwrite_output = False) either keeps / chooses a name that does NOT exist - the smallest free one,
+   at most `_99` - so it never overwrites a results file of a previous simulation; or raises Skip (exactly when
+   skip_if_output_exists and the file exists); or raises ValueError exactly when the name and all of _1 .. _99 exist.
+   Not covered here: the marker written to the backup name, the log-file renaming. *)
+Theorem T18_fix_output_filenames : forall (ex : nat -> bool) (skip : bool),
+  match fix_name ex skip false false with
+  | FName i => ex i = false /\ (i <= 99)%nat /\ (forall k, (k < i)%nat -> ex k = true)
+  | FRaise => skip = false /\ forall k, (k <= 99)%nat -> ex k = true
+  | FSkip => skip = true /\ ex 0%nat = true
+  end.
+Proof. exact fix_name_fresh. Qed.
+
+Example T18_example_fix_names :
+  fix_name (fun i => (i <? 3)%nat) false false false = FName 3 /\
+  fix_name (fun i => (i <? 100)%nat) false false false = FRaise /\
+  fix_name (fun i => (i <? 3)%nat) false false true = FName 0 /\
+  fix_name (fun i => (i <? 3)%nat) true false false = FSkip.
+Proof. vm_compute. repeat split; reflexivity. Qed.
+
 Print Assumptions T18_save_results_gen.
 Print Assumptions T18_crash_safe_single_run.
 Print Assumptions T18_crash_points_complete.
@@ -92,3 +113,4 @@ Print Assumptions T18_crash_safe_resumed_partial.
 Print Assumptions T18_crash_safe_resumed_refuted.
 Print Assumptions T18_resume_measurements.
 Print Assumptions T18_resume_eps_error_refuted.
+Print Assumptions T18_fix_output_filenames.
